@@ -491,6 +491,47 @@ def rule_r5(chk, prog):
                           f'[{f_.rule}] {f_.msg}', f_.loc)
 
 
+def rule_r6(chk, prog):
+    """The information the filters consult (definition nodes, sort table,
+    caches) is rebuilt from the current input before every sweep: a stale
+    entry makes a filter skip a node for the rest of the run."""
+    from . import c16
+    sub = Check('C16', 'other', 'quick', [], [])
+    chk.guard(c16.rule_r6, sub, prog)
+    chk.adopt('C02.R6', 'the tables the mutator filters consult are reset '
+              'and rebuilt for every sweep (shared with C16.R6): no filter '
+              'decision is based on an earlier input', sub)
+    m = prog.mod('strategy_hierarchical')
+    f = m.func('reduce')
+    # collect_information(exprs) inside the repeat loop, before the Producer
+    # of the sweep is built
+    loops = [l for l in ast.walk(f) if isinstance(l, ast.While)]
+    ok = False
+    for lp in loops:
+        inner = [l2 for l2 in ast.walk(lp) if isinstance(l2, ast.While)
+                 and l2 is not lp]
+        if inner:
+            continue  # the innermost repeat loop
+        ci = [c for c in calls_in(lp) if (call_name(c) or '').endswith(
+            'collect_information')]
+        # ... or a helper of the module that does it (one level)
+        for hc in calls_in(lp):
+            if isinstance(hc.func, ast.Name) and hc.func.id in m.funcs and \
+                    any((call_name(c2) or '').endswith('collect_information')
+                        for c2 in calls_in(m.funcs[hc.func.id])):
+                ci.append(hc)
+        ci.sort(key=lambda c_: c_.lineno)
+        pr = [c for c in calls_in(lp) if call_name(c) == 'Producer']
+        if ci and pr and ci[0].lineno < pr[0].lineno:
+            ok = True
+    chk.check('C02.R6', 'strategy_hierarchical.reduce',
+              'collect_information before every sweep', ok,
+              'the information tables are not rebuilt inside the sweep loop '
+              'before the Producer of the sweep is created: after an '
+              'accepted simplification the filters see the previous input',
+              loc=m.loc(f), nontrivial=True)
+
+
 def run(tier):
     prog = Program()
     chk = Check(
@@ -517,6 +558,7 @@ def run(tier):
     chk.guard(rule_r2, chk, prog)
     chk.guard(rule_r4, chk, prog)
     chk.guard(rule_r5, chk, prog)
+    chk.guard(rule_r6, chk, prog)
     extra = None
     if tier == 'thorough':
         from .. import selftest
